@@ -85,22 +85,35 @@ def mk_struct(kind, n, generic=False):
                     shape="%s%d%s" % (kind, n, "-generic" if generic else ""))
 
 
-def build(name, t, what, tr, fn, code, entry, extra_list=""):
+# bound(...) decorations: they may change the where-clause, never the behaviour (non-generic W fields need no bound)
+DECOR = ["", "per-trait:bound()", "shared:bound()", "per-trait:bound(..)", "field0:T(bound())", "fieldlast:bound()", "field0:T(bound(..))"]
+
+
+def build(name, t, what, tr, fn, code, entry, decor=""):
     trait = tr + ("Assign" if what == "assign" else "")
-    la = trait + extra_list
+    la = trait
+    fs = t.variants[0].fields
+    if decor.startswith("per-trait:"):
+        la = "%s(%s)" % (trait, decor.split(":", 1)[1])
+    elif decor.startswith("shared:"):
+        la = "%s, %s" % (trait, decor.split(":", 1)[1])
+    elif decor.startswith("field") and fs:
+        f = fs[0] if decor.startswith("field0") else fs[-1]
+        f.extra_attrs.append("#[derive_ex(%s)]" % decor.split(":", 1)[1].replace("T(", trait + "("))
+    t.shape += ("+" + decor) if decor else ""
     desc = "op=%s shape=%s entry=%s" % (la, t.shape, entry)
     src = e1.HEADER.format(pid=PID, name=name, desc=desc)
     pre = ["#[derive_ex(%s)]" % la] if entry == "attr" else ["#[derive(Ex)]", "#[derive_ex(%s)]" % la]
     src += t.item_text(pre) + "\n\n" + struct_helpers(t) + "\n" + t.mk_fn() + "\n"
     body = {"bin": check_bin, "assign": check_assign, "un": check_un}[what](tr, fn, code)
     src += "pub fn check<S: Src>(s: &mut S) {\n%s\n}\n\n" % "\n".join(body) + e1.harness(unwind=6)
-    return kani_runner.Program(name, src, "%s|%s|%s" % (la, t.shape, entry), desc, nontrivial=len(t.variants[0].fields) >= 1)
+    return kani_runner.Program(name, src, "%s|%s|%s" % (la, t.shape, entry), desc, nontrivial=True)
 
 
 def run(tier):
     t0 = time.time()
     rnd = random.Random(common.seed())
-    shapes = [("unit", 0, False)] + [(k, n, False) for k in ("tuple", "named") for n in (1, 2, 3, 4)] + [("named", 2, True), ("tuple", 3, True)]
+    shapes = [("unit", 0, False)] + [(k, n, False) for k in ("tuple", "named") for n in (0, 1, 2, 3, 4)] + [("named", 2, True), ("tuple", 3, True)]
     ops = [("bin",) + o for o in BIN] + [("assign",) + o for o in BIN] + [("un",) + o for o in UN]
     cands = []
     if tier == "thorough":
@@ -109,6 +122,9 @@ def run(tier):
                 cands.append((sh, op, "attr", ""))
         for op in ops:
             cands.append((("named", 2, False), op, "derive", ""))
+            for d in DECOR[1:]:
+                cands.append((("named", 2, False), op, "attr", d))
+                cands.append((("tuple", 3, False), op, "attr", d))
     else:
         for op in ops:
             cands.append((("named", 3, False), op, "attr", ""))
@@ -118,12 +134,16 @@ def run(tier):
             cands.append((sh, ops[19], "attr", ""))
             cands.append((sh, ops[20], "attr", ""))
         cands.append((("named", 2, False), ops[9], "derive", ""))
-        cands.append((("named", 2, True), ops[9], "attr", ", bound(..)"))
-        allc = [(sh, op, "attr", "") for sh in shapes for op in ops]
-        cands += rnd.sample(allc, 25)
+        for i, d in enumerate(DECOR[1:]):
+            for op in (ops[0], ops[10 + (i % 10)], ops[20 + (i % 2)], ops[rnd.randrange(22)]):
+                cands.append((("named", 2, False), op, "attr", d))
+        allc = [(sh, op, "attr", d) for sh in shapes for op in ops for d in DECOR]
+        cands += rnd.sample(allc, 30)
     progs, seen = [], set()
     for (kind, n, gen), (what, tr, fn, code), entry, extra in cands:
         t = mk_struct(kind, n, gen)
+        if gen and extra and "bound()" in extra:
+            continue  # an empty bound on a generic field type does not type-check (user error)
         k = (t.shape, what, tr, entry, extra)
         if k in seen:
             continue
